@@ -45,8 +45,65 @@ def parseAfter (k : Kind) (obs : String) : Option (String × List Val) :=
     | none => none
   | _ => none
 
+/-- groups of six fields -/
+def chunk6 : List String → List (List String)
+  | a :: b :: c :: d :: e :: f :: rest => [a, b, c, d, e, f] :: chunk6 rest
+  | _ => []
+
+/-- a sequence of assignments to the same variable: every step is applied to what the previous
+    steps left (the reference update).  A step the reference rejects (an arithmetic overflow of the
+    kind, say) must leave the variable as it was; the documented non-atomic behaviour of a failing
+    kernel (finding C04-D4) is recognised as in the single-assignment cases and ends the comparison. -/
+def runC04seq (kn mt : String) (steps : List (List String)) (obs : String) : String × String × String :=
+  match kindOfName kn with
+  | none => ("bad-case", "bad-case", "-")
+  | some k =>
+    match parseOperand k mt with
+    | some (.mat m0) =>
+      let rec go (m : Mat Val) (sts : List (List String)) (os : List String) (ms ss : List String) : String × String × String :=
+        match sts with
+        | [] =>
+          let spec := "@".intercalate ss
+          ("@".intercalate ms, if obs == spec then "ok" else "bad:expected " ++ spec, "-")
+        | st :: rest =>
+          match st with
+          | [s1t, s2t, opn, srct, srckn, _mode] =>
+            (match kindOfName srckn with
+             | some sk =>
+               (match parseOperand sk srct, parseSel s1t, (if s2t == "-" then some (Sel.all, "-") else parseSel s2t) with
+                | some src, some (s1, _), some (s2, _) =>
+                  let twoD := s2t != "-"
+                  let f : Val → Val → Except Err Val :=
+                    if sk != k then (fun _ _ => .error .kind)
+                    else match opn with
+                      | "set" => (fun _ v => .ok v)
+                      | "add" => scalarOp hwFloat k .add | "sub" => scalarOp hwFloat k .sub
+                      | "mul" => scalarOp hwFloat k .mul | "div" => scalarOp hwFloat k .div
+                      | _ => (fun _ _ => .error .other)
+                  let r := if twoD then assign2 f m s1 s2 src else assign1 f m s1 src
+                  let specM : Option (Mat Val) :=
+                    if twoD then (match src with | .scalar v => update2 f m s1 s2 v | _ => none) else update1 f m s1 src
+                  let mtxt := (match r.2 with | .ok _ => "ok#" | .error _ => "err#") ++ matObs k r.1
+                  let stxt := match specM with | some m' => "ok#" ++ matObs k m' | none => "err#" ++ matObs k m
+                  let o := os.headD ""
+                  if specM.isNone && o != stxt then
+                    -- rejected by the reference, and the variable did not stay as it was
+                    let okBehaviour := match parseAfter k o with
+                      | some (_, after) => onlyAddressedChanged f m after (lenientTargets m s1 (if twoD then some s2 else none)) src
+                      | none => false
+                    let spec := "@".intercalate (ss ++ [stxt])
+                    (if okBehaviour then obs else "@".intercalate (ms ++ [mtxt]), "bad:expected " ++ spec ++ " (then the rest of the sequence)",
+                      if okBehaviour && ("@".intercalate (os.take 0 ++ ss) == "@".intercalate ((obs.splitOn "@").take ss.length)) then "C04-D4" else "-")
+                  else go (specM.getD m) rest (os.drop 1) (ms ++ [mtxt]) (ss ++ [stxt])
+                | _, _, _ => ("bad-case", "bad-case", "-"))
+             | none => ("bad-case", "bad-case", "-"))
+          | _ => ("bad-case", "bad-case", "-")
+      go m0 steps (obs.splitOn "@") [] []
+    | _ => ("bad-case", "bad-case", "-")
+
 def runC04 (fields : List String) (obs : String) : String × String × String :=
   match fields with
+  | "aseq" :: kn :: mt :: rest => runC04seq kn mt (chunk6 rest) obs
   | _ :: kn :: mt :: s1t :: s2t :: opn :: srct :: srckn :: _mode :: label :: rest =>
     match kindOfName kn, kindOfName srckn with
     | some k, some sk =>
